@@ -255,7 +255,7 @@ func (c *Ctx) ruleSatArith() {
 				guards++
 			}
 			if r, ok := in.(*ssa.Return); ok {
-				if k, ok := constInt(r.Results[0]); ok && (k == 2147483647 || k == -2147483648) {
+				if k, ok := constInt(resultOf(r, 0)); ok && (k == 2147483647 || k == -2147483648) {
 					satRet++
 				}
 			}
@@ -277,7 +277,7 @@ func (c *Ctx) ruleLoopExit() {
 			continue
 		}
 		n++
-		c.ob("R-LOOPEXIT", fmt.Sprintf("reportPeer:return-in-loop#%d", n), r.Pos(), !isNilConst(r.Results[0]),
+		c.ob("R-LOOPEXIT", fmt.Sprintf("reportPeer:return-in-loop#%d", n), r.Pos(), !isNilConst(resultOf(r, 0)),
 			"reportPeer returns success from inside the per-peer loop: peers listed after this one never receive the reputation change")
 	}
 	c.ob("R-LOOPEXIT", "reportPeer:loop", f.Pos(), true, fmt.Sprintf("%d return sites inside the per-peer loop examined", n))
